@@ -3,13 +3,17 @@
 
    Events (pure steps on the monitor record n):
      SendStep(n, s)       s = [pat, src, dst, mid, p]: a payload p handed to the network at
-                          sender src, addressed to dst (a broadcast is one send per member)
+                          sender src, addressed to member dst
+     BcastStep(n, s, M)   s = [pat, src, mid, p]: a payload handed to a BROADCAST at sender
+                          src; a broadcast addresses EVERY member of the destination cluster
+                          (M = its members): each of them must receive it exactly once
      DeliverStep(n, d)    d = [pat, at, from, mid, p]: the receiver `at` produced payload p,
                           tagged with sender `from`
      QuiesceStep(n)       nothing is pending (TCP, no failures: nothing may be lost)
      RtStep(n, r)         a MemberId went through into_tagless / from_tagless / serde
    pat: 0 = one-to-many demux, 1 = many-to-one send, 2 = many-to-many demux,
-        3 = broadcast, 4 = sinktools::demux_map; src / dst / at / from: member index,
+        3 = broadcast from the process, 4 = sinktools::demux_map, 5 = broadcast from a
+        cluster member (cluster-to-cluster); src / dst / at / from: member index,
         -1 = the process (or: the path carries no sender tag).
    `p` is the payload as TLC sees it (NetTrace passes the JSON text of the value): the monitor
    never looks inside, EQUALITY of the sent and the delivered payload is what decides
@@ -27,6 +31,16 @@ SendStep(n, s) ==
     [n EXCEPT !.flight = @ \cup {s},
               !.bad = @ \cup NFlag(\E t \in n.flight \cup n.done : t.mid = s.mid /\ t.dst = s.dst,
                                    "PRE-message-id-reused")]
+
+\* one in-flight obligation per member of the destination cluster
+RECURSIVE SendEach(_, _, _)
+SendEach(n, s, M) ==
+    IF M = {} THEN n
+    ELSE LET b == CHOOSE x \in M : TRUE
+         IN SendEach(SendStep(n, [pat |-> s.pat, src |-> s.src, dst |-> b, mid |-> s.mid, p |-> s.p]),
+                     s, M \ {b})
+BcastStep(n, s, M) == SendEach(n, s, M)
+IsBcast(s) == s.pat \in {3, 5}
 
 Matches(s, d) == s.pat = d.pat /\ s.dst = d.at /\ s.src = d.from /\ s.p = d.p
 
@@ -46,7 +60,11 @@ DeliverStep(n, d) ==
                      \cup NFlag(\E s \in same : s.p = d.p /\ s.dst = d.at /\ s.src = d.from,
                                 "delivery-matches-no-in-flight-send"))]
 
-QuiesceStep(n) == [n EXCEPT !.bad = @ \cup NFlag(n.flight # {}, "message-lost")]
+\* nothing may stay in flight; for a broadcast that means: a member of the destination cluster
+\* never got the payload -- the sender did not address it
+QuiesceStep(n) ==
+    [n EXCEPT !.bad = @ \cup NFlag(\E s \in n.flight : ~IsBcast(s), "message-lost")
+                        \cup NFlag(\E s \in n.flight : IsBcast(s), "member-never-addressed")]
 
 \* r = [raw, tagless, back, retag, wire, wire_tagless, eq]; the harness writes field names
 \* with a "$" prefix and numbers as "#<decimal>" strings
@@ -69,6 +87,7 @@ nvars == <<net>>
 NInit == net = NInitRec
 NReset == net' = NInitRec
 NSend(s) == net' = SendStep(net, s)
+NBcast(s, M) == net' = BcastStep(net, s, M)
 NDeliver(d) == net' = DeliverStep(net, d)
 NQuiesce == net' = QuiesceStep(net)
 NRt(r) == net' = RtStep(net, r)
